@@ -28,6 +28,7 @@ import (
 	"bufio"
 	"bytes"
 	"crypto/tls"
+	"errors"
 	"encoding/json"
 	"fmt"
 	"io"
@@ -171,9 +172,16 @@ type recConn struct {
 	last   time.Time
 	ts     *trafficshape.Conn
 	closed bool
+	// failing underlying connection: Close returns an error (as a tls.Conn that
+	// cannot send close_notify after a reset does), Write fails
+	closeErr bool
+	writeErr bool
 }
 
 func (r *recConn) Write(b []byte) (int, error) {
+	if r.writeErr {
+		return 0, errors.New("write on a reset connection")
+	}
 	now := time.Now()
 	r.mu.Lock()
 	defer r.mu.Unlock()
@@ -189,7 +197,13 @@ func (r *recConn) Write(b []byte) (int, error) {
 	return len(b), nil
 }
 func (r *recConn) Read(b []byte) (int, error)         { return 0, io.EOF }
-func (r *recConn) Close() error                       { r.closed = true; return nil }
+func (r *recConn) Close() error {
+	r.closed = true
+	if r.closeErr {
+		return errors.New("close: connection reset by peer")
+	}
+	return nil
+}
 func (r *recConn) LocalAddr() net.Addr                { return &net.TCPAddr{} }
 func (r *recConn) RemoteAddr() net.Addr               { return &net.TCPAddr{} }
 func (r *recConn) SetDeadline(t time.Time) error      { return nil }
@@ -419,9 +433,10 @@ func runListener(in []string) (out []string) {
 			}
 			out = append(out, fmt.Sprintf("st%d:%s:l%d:u%d:d%d", code, rxBits(regs), tsl.Latency()/time.Millisecond,
 				tsl.WriteBucket.Capacity(), tsl.ReadBucket.Capacity()))
-		case tok == "a":
+		case tok == "a" || tok == "A" || tok == "E":
 			g0 := settle()
-			c := tsl.GetTrafficShapedConn(&recConn{last: time.Now()})
+			// A: the inner Close returns an error; E: Close errors and Write fails
+			c := tsl.GetTrafficShapedConn(&recConn{last: time.Now(), closeErr: tok != "a", writeErr: tok == "E"})
 			conns[next] = c
 			connDelta += settle() - g0
 			out = append(out, fmt.Sprintf("c%d", next))
@@ -435,6 +450,12 @@ func runListener(in []string) (out []string) {
 				delete(conns, id)
 			}
 			out = append(out, "-")
+		case tok[0] == 'w':
+			id, _ := strconv.Atoi(tok[1:])
+			if c, ok := conns[id]; ok {
+				c.Write(make([]byte, 64))
+			}
+			out = append(out, "w")
 		case tok[0] == 'v':
 			p := strings.SplitN(tok[1:], ":", 2)
 			id, _ := strconv.Atoi(p[0])
@@ -616,6 +637,8 @@ func (t *teeConn) Read(b []byte) (int, error) {
 //
 //	q:<urlhex>:<rs>:<len>:<seed>   a GET (through the proxy, or inside the MITM'd tunnel)
 //	t:<len>:<seed>                 (connect mode) after the blind CONNECT: ask the target for len bytes
+//	qz:<urlhex>:<rs>:<len>:<seed>:<n>   GET, read only n bytes of the response, then abort with a TCP reset
+//	end:rst                        leave with a TCP reset (SetLinger(0)) instead of a close
 //
 // One client connection to a martian proxy on a shaped listener; the items are
 // run one after the other on that connection.  plain: proxy-form requests;
@@ -685,6 +708,7 @@ func runKeepAlive(in []string) (out []string) {
 	br := bufio.NewReader(tc)
 	dead := false
 	tunnel := false
+	reset := false
 
 	connect := func(hostport string) string {
 		req, _ := http.NewRequest("CONNECT", "//"+hostport, nil)
@@ -818,12 +842,50 @@ func runKeepAlive(in []string) (out []string) {
 				dead = true
 			}
 			out = append(out, state, fmt.Sprintf("el%d", us(time.Since(t0))), "B"+hx.Hex(want), hx.Hex(got[:k]))
+		case p[0] == "qz" && len(p) == 6:
+			// request, read only p[5] bytes of the response, then abort with a TCP reset
+			if dead {
+				out = append(out, "skip")
+				continue
+			}
+			url := string(hx.MustUnHex(p[1]))
+			rs, _ := strconv.Atoi(p[2])
+			n, _ := strconv.Atoi(p[3])
+			seed, _ := strconv.ParseUint(p[4], 10, 64)
+			rd, _ := strconv.Atoi(p[5])
+			origin.mu.Lock()
+			origin.cur = bodyBytes(seed, n)
+			origin.mu.Unlock()
+			req, _ := http.NewRequest("GET", url, nil)
+			if rs >= 0 {
+				req.Header.Set("Range", fmt.Sprintf("bytes=%d-", rs))
+			}
+			if mode == "mitm" {
+				err = req.Write(cur)
+			} else {
+				err = req.WriteProxy(cur)
+			}
+			raw.SetReadDeadline(time.Now().Add(5 * time.Second))
+			k, _ := io.ReadFull(br, make([]byte, rd))
+			out = append(out, fmt.Sprintf("z%d", k))
+			reset = true
+			dead = true
+		case it == "end:rst":
+			reset = true
 		default:
 			out = append(out, "badtok")
 		}
 	}
-	cur.Close()
-	raw.Close()
+	if reset {
+		// the client leaves with a TCP reset: no close_notify, no FIN
+		if t, ok := raw.(*net.TCPConn); ok {
+			t.SetLinger(0)
+		}
+		raw.Close()
+	} else {
+		cur.Close()
+		raw.Close()
+	}
 	// everything created for that connection has to go away
 	left := 0
 	for i := 0; i < 40; i++ {
